@@ -1393,6 +1393,142 @@ def check_C16(tier, seed, replay):
     return res
 
 
-CHECKS = {"C16": check_C16, "C20": check_C20, "C15": check_C15, "C18": check_C18, "C11": check_C11, "C01": check_C01, "C02": check_C02, "C04": check_C04, "C05": check_C05, "C06": check_C06,
+
+# ---------------------------------------------------------------------------------------------- C03
+def rust_ident(n):
+    import families
+    return "r#" + n if n in families.RAW_OK else n
+
+
+def rust_type(t):
+    import re
+    return re.sub(r"[A-Za-z_][A-Za-z0-9_]*", lambda m: m.group(0) if m.group(0) in ("Option", "Vec", "Box", "String", "char")
+                  else rust_ident(m.group(0)), t)
+
+
+def assertion_module(table):
+    """exact-type assertions for one grammar from the specification's type table"""
+    out = ["use std::marker::PhantomData as __PD;",
+           "fn __same<T>(_: __PD<T>, _: __PD<T>) {}",
+           "fn __ty<T>(_: &T) -> __PD<T> { __PD }"]
+
+    def enum_fn(name, variants):
+        arms = []
+        for v in variants:
+            inner = rust_type(("Box<%s>" % v["t"]) if v["boxed"] else v["t"])
+            arms.append("        %s::%s(x) => __same(__ty(x), __PD::<%s>)," % (rust_ident(name), rust_ident(v["t"]), inner))
+        return "#[allow(non_snake_case)] pub fn __assert_enum_%s(v: &%s) {\n    match v {\n%s\n    }\n}" % (
+            name, rust_ident(name), "\n".join(arms))
+
+    for t in table:
+        r = t["rule"]
+        if t["kind"] == "alias":
+            out.append("#[allow(non_snake_case)] pub fn __assert_alias_%s() { __same(__PD::<%s>, __PD::<%s>); }" % (
+                r, rust_ident(r), rust_type(t["ty"])))
+        elif t["kind"] == "enum":
+            out.append(enum_fn(r, t["variants"]))
+        else:
+            pats = ["%s: _" % rust_ident(f["name"]) for f in t["fields"]] + (["position: _"] if t["position"] else [])
+            body = ["    let %s { %s } = v;" % (rust_ident(r), ", ".join(pats))]
+            for f in t["fields"]:
+                body.append("    __same(__ty(&v.%s), __PD::<%s>);" % (rust_ident(f["name"]), rust_type(f["ty"])))
+            if t["position"]:
+                body.append("    __same(__ty(&v.position), __PD::<std::ops::Range<usize>>);")
+            out.append("#[allow(non_snake_case)] pub fn __assert_struct_%s(v: &%s) {\n%s\n}" % (r, rust_ident(r), "\n".join(body)))
+            for e in t["enums"]:
+                out.append(enum_fn(e["name"], e["variants"]))
+    return "\n".join(out) + "\n"
+
+
+def check_C03(tier, seed, replay):
+    import re
+    import families
+    import peg
+    res = Result()
+    gs = families.family("types", tier, seed)
+    if replay:
+        rp = json.load(open(replay))
+        gs = [g for g in gs if g.meta["shape"] == rp.get("name")]
+    d = vlib.famdir("types", tier)
+    pre = os.path.join(d, "pre")
+    os.makedirs(pre, exist_ok=True)
+    json.dump([peg.grammar_json(g) for g in gs], open(os.path.join(pre, "corpus.json"), "w"))
+    t = tlc_simple("types", "TypeShapes.tla", "TypeShapes.cfg", tier, env={"CORPUS": os.path.join(pre, "corpus.json")})
+    if t["rc"] != 0:
+        # ArityMapping violated: the implemented arity lattice (transcribed) disagrees with the documented mapping
+        raise ToolError("TypeShapes: ArityMapping is violated in the model:\n%s" % (t["violation"] or "")[:2000])
+    tables = {o["g"]: o["types"] for o in t["prints"]}
+    for g in gs:
+        g.meta["user_rs"] = assertion_module(tables[g.id])
+    by_id = {g.id: g for g in gs}
+    dropped = {}
+    build_rounds = 0
+    while True:
+        build_rounds += 1
+        live = [g for g in gs if g.id not in dropped]
+        cdir, _ = vlib.build_corpus("types", tier, seed, grammars=live)
+        # (the corpus cache key does not know about dropped members: force a rewrite)
+        if dropped:
+            import shutil
+            shutil.rmtree(cdir)
+            os.remove(os.path.join(d, "corpus.key"))
+            cdir, _ = vlib.build_corpus("types", tier, seed, grammars=live)
+        cd = vlib.materialise_crate("types", tier, cdir)
+        ok, err, binp = vlib.cargo_build(cd)
+        front = {}
+        for line in open(os.path.join(cd, "front.tsv")):
+            f = line.rstrip("\n").split("\t")
+            front[f[0]] = (f[1], f[2] if len(f) > 2 else "")
+        for gid, (verdict, msg) in front.items():
+            if verdict == "error" and gid not in dropped:
+                # in this family every member is built to be accepted
+                dropped[gid] = ("rejected", msg)
+                res.add(Violation("C03", "Accepted", "the compiler rejects a grammar of the documented fragment (%s): %s" % (
+                    by_id[gid].meta["shape"], msg), None, {"name": by_id[gid].meta["shape"], "site": by_id[gid].meta.get("local_name", by_id[gid].meta["shape"]),
+                                                         "grammar": peg.grammar_text(by_id[gid])}))
+        if ok:
+            break
+        bad = set(re.findall(r"/(ty_\d+)\.(?:user\.)?rs", err))
+        bad -= set(dropped)
+        if not bad or build_rounds > 6:
+            raise ToolError("the types family does not build and the errors cannot be attributed:\n%s" % err[-3000:])
+        for gid in sorted(bad):
+            first = next((l for l in err.split("\n") if l.startswith("error")), "")
+            m = re.search(r"(error[^\n]*\n(?:[^\n]*\n){0,6}?[^\n]*/%s\.(?:user\.)?rs[^\n]*)" % gid, err)
+            dropped[gid] = ("rustc", (m.group(1) if m else first)[:600])
+            g = by_id[gid]
+            which = "exact-type assertions" if re.search(r"/%s\.user\.rs" % gid, err) and not re.search(r"/%s\.rs" % gid, err) else "generated code"
+            res.add(Violation("C03", "Compiles" if which == "generated code" else "TypeMapping",
+                              "%s of grammar %s do not compile: %s" % (which, g.meta["shape"], dropped[gid][1]), None,
+                              {"name": g.meta["shape"], "site": g.meta.get("local_name", g.meta["shape"]), "grammar": peg.grammar_text(g),
+                               "expected_types": tables[gid]}))
+    # no `unsafe` in generated code (the crate also forbids it)
+    outdir = None
+    import glob
+    cands = glob.glob(os.path.join(vlib.WORK, "target", "debug", "build", "fam_types_%s-*" % tier, "out"))
+    if cands:
+        outdir = max(cands, key=os.path.getmtime)
+        for g in gs:
+            pth = os.path.join(outdir, g.id + ".rs")
+            if os.path.exists(pth) and re.search(r"\bunsafe\b", re.sub(r'r#unsafe|"[^"]*"', "", open(pth).read())):
+                res.add(Violation("C03", "NoUnsafe", "generated code of %s contains `unsafe`" % g.meta["shape"], None,
+                                  {"name": g.meta["shape"], "site": "unsafe"}))
+    nfields = sum(1 for g in gs for tt in tables[g.id] if tt["kind"] == "struct" for _ in tt["fields"])
+    res.coverage = {
+        "states": t["distinct"], "transitions": max(1, t["states"]), "traces_validated_against_impl": len(gs) - len(dropped),
+        "evaluations": len(gs), "distinct_nontrivial": sum(1 for g in gs if any(tt["kind"] != "alias" for tt in tables[g.id])),
+        "rule": "field-plumbing shapes (every depth-1 tree over field atoms, sampled deeper, hand-written), every rule kind, "
+                "Rust keywords and the generator's own local names as rule / field names, derive sets; the type table is "
+                "evaluated by TLC from the documented mapping and compiled as exact-type assertions (PhantomData<T> equality, "
+                "exhaustive destructuring, wildcard-free match) against the real generated code under forbid(unsafe_code); "
+                "non-trivial = grammar declaring at least one struct or enum",
+        "exhaustive": False, "fields_asserted": nfields, "build_rounds": build_rounds,
+        "samples": [{"grammar": gs[i].meta["shape"], "types": tables[gs[i].id]} for i in (0, len(gs) // 2, len(gs) - 1)][:3],
+    }
+    res.assumptions = ["rustc judges compilation; TLC supplies the enumeration and the expected type table"]
+    return res
+
+
+CHECKS = {"C03": check_C03, "C16": check_C16, "C20": check_C20, "C15": check_C15, "C18": check_C18, "C11": check_C11, "C01": check_C01, "C02": check_C02, "C04": check_C04, "C05": check_C05, "C06": check_C06,
           "C07": check_C07, "C08": check_C08, "C09": check_C09, "C10": check_C10, "C13": check_C13,
           "C14": check_C14, "C19": check_C19}
